@@ -48,7 +48,11 @@ class F:
 
     def __init__(self, name=None, uuid=None, in_tree=None, mem=(), fmem=(),
                  req=(), forb=(), res=None, raw_extra='', expect=200,
-                 version='1.39', dup=None):
+                 version='1.39', dup=None, or_empty=False):
+        # or_empty: the combination also falls under a "yields an empty
+        # list" clause of the statement, so 200 with no providers is accepted
+        # besides `expect`
+        self.or_empty = or_empty
         # dup = a class of res named a second time in the same `resources`
         # value, with its own symbolic amount
         self.dup = dup
@@ -159,6 +163,35 @@ def combinations(mode):
     return out
 
 
+def unknown_name_combinations():
+    """an unknown trait (required / forbidden) or resource class together
+    with every variant of every other filter: 400 whatever the other filter
+    matches.  Where the other filter names no provider / only unknown
+    aggregates the statement also promises an empty list; there either answer
+    is accepted."""
+    out = []
+    variants = [dict(v, _dim=n) for n in sorted(DIMS) for v in DIMS[n]]
+    variants.append(dict(in_tree=UNKNOWN_UUID, _dim='in_tree'))
+    variants.append(dict(req=[[T2]], forb=[T1], _dim='required'))
+    for v in variants:
+        v = dict(v)
+        v.pop('_dim')
+        collides = (v.get('uuid') == UNKNOWN_UUID or
+                    v.get('in_tree') == UNKNOWN_UUID or
+                    v.get('mem') == [[9]])
+        for unk in (dict(res={'CUSTOM_NOPE': 1}), dict(req=[['CUSTOM_NOPE']]),
+                    dict(forb=['CUSTOM_NOPE'])):
+            kw = dict(v)
+            for k, val in unk.items():
+                if k == 'res':
+                    kw['res'] = dict(kw.get('res') or {}, **val)
+                else:
+                    kw[k] = list(kw.get(k) or []) + val
+            kw.update(expect=400, or_empty=collides)
+            out.append(kw)
+    return out
+
+
 def make_family(fname, topo, f, usage=False):
     combos = f if isinstance(f, list) else None
 
@@ -178,6 +211,9 @@ def make_family(fname, topo, f, usage=False):
             if f.dup and r.status == 400:
                 # refusing a class named twice is a legitimate answer
                 return finish(ctx, '400')
+            if f.or_empty and r.status == 200 and \
+                    not r.json['resource_providers']:
+                return finish(ctx, '200:empty')
             if r.status != f.expect:
                 runner.violation(ctx, 'status', 'expected %d got %d: %s' % (
                     f.expect, r.status, (r.error_detail or '')[:200]),
@@ -259,6 +295,7 @@ def families(tier):
     # Combinations of exactly 4 and 5 filters (1200 of them) are outside
     # the claim.
     fams.append(('combinations-pairs', TOPO, combinations('pairs')))
+    fams.append(('unknown-name+filter', TOPO, unknown_name_combinations()))
     if tier == 'thorough':
         fams.append(('combinations-triples', TOPO_C, combinations('triples')))
         fams.append(('combinations-six', TOPO_C, combinations('six')))
